@@ -200,6 +200,18 @@ def run_case(ctx, tag: str, case: dict, phase_list: List[dict],
                     ctx.sample({'discarded_config': exc[:300],
                                 'flow': case['gt']['flow_text']}, force=True)
                 return None
+            why = str(res.get('stop_reason') or '') + ' ' + exc
+            if 'NameError: name' in why or 'TriggerExpressionError' in why:
+                # the scheduler died evaluating a prerequisite expression:
+                # the generated graph hit one of the expression-rewriting
+                # hazards recorded under C13/C14 (e.g. 'b:finish' next to a
+                # task named 'a_b'); judged there, not by this check
+                ctx.count('discard_prerequisite_expression_hazard_C13')
+                if ctx.counters['discard_prerequisite_expression_hazard_C13'] \
+                        <= 3:
+                    ctx.sample({'discarded_expression_hazard': why[:300],
+                                'flow': case['gt']['flow_text']}, force=True)
+                return None
             if between and idx < len(phase_list) - 1:
                 between(idx, res, home)
         for res in results:
